@@ -48,6 +48,8 @@ type lifeCoord struct {
 	assign       map[string]map[string][]int32
 	protocol     string
 	stop         chan struct{}
+	events       []string // trace for Model/GroupRound (same alphabet as simtrace.go)
+	obs          []string
 }
 
 func newLifeCoord(parts []kafka.Partition, racks map[int]string) *lifeCoord {
@@ -107,6 +109,15 @@ func (c *lifeCoord) handle(call kafka.VerifCoordCall) kafka.VerifCoordReply {
 				ps = append(ps, p)
 			}
 		}
+		if c.leader != "" {
+			tp := make([]part, len(ps))
+			for i, p := range ps {
+				z := 0
+				fmt.Sscanf(p.Leader.Rack, "rack-%d", &z)
+				tp[i] = part{topicNo(p.Topic), p.ID, z}
+			}
+			c.events = append(c.events, "A:"+xid(c.leader)+":"+fmtParts(tp))
+		}
 		return kafka.VerifCoordReply{Parts: ps}
 	case "joinGroup":
 		id := call.MemberID
@@ -158,6 +169,15 @@ func (c *lifeCoord) handle(call kafka.VerifCoordCall) kafka.VerifCoordReply {
 					x := c.members[xid]
 					c.roster = append(c.roster, kafka.VerifGroupMember{ID: xid, Topics: x.topics, UserData: x.userData})
 				}
+				rms := make([]member, len(c.roster))
+				for i, rm := range c.roster {
+					var ts []int
+					for _, t := range rm.Topics {
+						ts = append(ts, topicNo(t))
+					}
+					rms[i] = member{rm.ID, 0, ts}
+				}
+				c.events = append(c.events, fmt.Sprintf("N:%d:%s:%s", c.gen, xid(c.leader), fmtMembers(rms)))
 				c.cond.Broadcast()
 				break
 			}
@@ -170,6 +190,7 @@ func (c *lifeCoord) handle(call kafka.VerifCoordCall) kafka.VerifCoordReply {
 		if id == c.leader {
 			r.Members = c.roster
 		}
+		c.events = append(c.events, "R:"+xid(id), fmt.Sprintf("J:%s:%d", xid(id), c.gen))
 		return r
 	case "syncGroup":
 		if c.members[call.MemberID] == nil {
@@ -177,6 +198,7 @@ func (c *lifeCoord) handle(call kafka.VerifCoordCall) kafka.VerifCoordReply {
 		}
 		gen := call.GenerationID
 		if gen != c.gen {
+			c.events = append(c.events, "R:"+xid(call.MemberID))
 			return lifeErr(22)
 		}
 		if call.MemberID == c.leader && call.Assign != nil && c.assign == nil && c.pendingRound == c.formedRound {
@@ -188,12 +210,34 @@ func (c *lifeCoord) handle(call kafka.VerifCoordCall) kafka.VerifCoordReply {
 			c.cond.Wait()
 		}
 		if c.gen != gen || c.pendingRound != c.formedRound || c.assign == nil {
+			c.events = append(c.events, "R:"+xid(call.MemberID))
 			return lifeErr(27)
 		}
 		a := c.assign[call.MemberID]
 		if a == nil {
 			a = map[string][]int32{}
 		}
+		kind := "S:"
+		if call.Assign != nil {
+			kind = "L:"
+		}
+		c.events = append(c.events, kind+xid(call.MemberID))
+		var ts []string
+		for t := range a {
+			ts = append(ts, t)
+		}
+		sort.Slice(ts, func(i, j int) bool { return topicNo(ts[i]) < topicNo(ts[j]) })
+		var es []string
+		for _, t := range ts {
+			if len(a[t]) > 0 {
+				es = append(es, fmt.Sprintf("%d/%s", topicNo(t), ints32(a[t])))
+			}
+		}
+		o := "-"
+		if len(es) > 0 {
+			o = strings.Join(es, "+")
+		}
+		c.obs = append(c.obs, fmt.Sprintf("%s@%d=%s", xid(call.MemberID), gen, o))
 		return kafka.VerifCoordReply{Assignments: a}
 	case "heartbeat":
 		switch {
@@ -399,6 +443,13 @@ func lifeScenario(r *rand.Rand, op string) (emitted, skipped int) {
 			l.cg.Close()
 		}
 	}
+	// the coordinator's own trace of this history, for the acceptor of Model/GroupRound (heterogeneous subscriptions;
+	// RackAffinity's result depends on map orders the trace does not carry: Range and RoundRobin only)
+	coord.mu.Lock()
+	if op != "lrack" && skipped == 0 && len(coord.obs) > 0 {
+		fmt.Fprintf(out, "ltrace2 %s %s %s\t%s\n", op[1:], fmtParts(ps), strings.Join(coord.events, "|"), strings.Join(coord.obs, "|"))
+	}
+	coord.mu.Unlock()
 	return
 }
 
